@@ -105,6 +105,7 @@ pub fn run_session(case: &Value) -> Value {
         let mut evs: Vec<Ev> = vec![];
         let mut ints = 0;
         let mut intpre = json!([]);
+        let mut intprobe = json!({"line": -1, "vars": []});
         match kind {
             "int" => {
                 s.interrupt();
@@ -131,6 +132,9 @@ pub fn run_session(case: &Value) -> Value {
                     }
                     if !done {
                         intpre = out_so_far(&items(&evs));
+                        let p = s.probe();
+                        let pj = probe_json(&p);
+                        intprobe = json!({"line": pj["line_pc"], "vars": pj["vars"], "state": p.state});
                         s.interrupt();
                         ints = 1;
                         evs.extend(s.drain());
@@ -145,7 +149,7 @@ pub fn run_session(case: &Value) -> Value {
             anomalies.push(json!({"cmd": text, "wait": w,
                 "events": evs.iter().map(ev_json).collect::<Vec<_>>()}));
         }
-        recs.push(json!({"cmd": c, "text": text, "ints": ints, "intpre": intpre,
+        recs.push(json!({"cmd": c, "text": text, "ints": ints, "intpre": intpre, "intprobe": intprobe,
             "resp": items(&evs), "wait": w, "probe": tlc_probe(&s), "steps": s.steps}));
         if w == "panic" {
             break;
